@@ -3,6 +3,7 @@
 package sm2
 
 import (
+	crand "crypto/rand"
 	"bytes"
 	"fmt"
 	"math/big"
@@ -57,6 +58,7 @@ func TestVerifC17SM2(t *testing.T) {
 		sh.rID, sh.sID = ref.B32(m2.R), ref.B32(m2.S)
 		keys = append(keys, sh)
 	}
+	zaTable := protect(rng.Bytes(32 * 4))
 	// RARE-PATH calls mixed into the stress (and run once before it): the first candidate is rejected late
 	// (r = 0, r + k = n, s = 0 through a solved digest) or early (k = 0, k >= n), the source fails in the
 	// middle of a redraw, the key is invalid. Whatever such a path leaves behind in package-level state
@@ -141,7 +143,7 @@ func TestVerifC17SM2(t *testing.T) {
 				<-start
 				for it := 0; it < iters; it++ {
 					sh := keys[lr.Intn(len(keys))]
-					kind := lr.Intn(9)
+					kind := lr.Intn(11)
 					n := atomic.AddInt64(&inflight, 1)
 					if n > 1 {
 						atomic.AddInt64(&overlapped, 1)
@@ -209,6 +211,26 @@ func TestVerifC17SM2(t *testing.T) {
 								if ok != ref.SM2Verify(sh.px.B, sh.py.B, e, ref.B32(rr), ref.B32(sv)) {
 									bad = "VerifyHashed-crafted"
 								}
+							}
+						case 9:
+							// the process-wide crypto/rand.Reader as the source, from many goroutines at once (what real callers pass)
+							e := lr.Bytes(32)
+							rr, ss, err := SignHashed(crand.Reader, sh.priv.B, e)
+							if err != nil || !ref.SM2Verify(sh.px.B, sh.py.B, e, rr, ss) {
+								bad = "SignHashed(crypto/rand.Reader)"
+							}
+						case 10:
+							// ZA handed over as a sub-slice with SPARE CAPACITY of a shared, write-protected table of per-user values
+							// (ZA_1 || ZA_2 || ...): signing and verifying different messages under it at the same time
+							za := zaTable.B[32*(it%2) : 32*(it%2)+32]
+							msg := sh.msg.B[:10+lr.Intn(60)]
+							eza := ref.SM2E(za, msg)
+							m := ref.SM2Sign(ref.Int(sh.priv.B), eza, sh.stream)
+							rr, ss, err := SignZa(newScript(sh.stream), sh.priv.B, za, msg)
+							if err != nil || m.R == nil || !bytes.Equal(rr, ref.B32(m.R)) || !bytes.Equal(ss, ref.B32(m.S)) {
+								bad = "SignZa(shared-za-with-spare-capacity)"
+							} else if ok, _ := VerifyZa(sh.px.B, sh.py.B, za, msg, rr, ss); !ok {
+								bad = "VerifyZa(shared-za-with-spare-capacity)"
 							}
 						case 8:
 							if len(rares) > 0 {
